@@ -26,6 +26,16 @@ def ensure_loop(world: World, policy: Optional[str] = None) -> SimLoop:
     return loop
 
 
+def fresh_loop(world: World, policy: Optional[str] = None) -> SimLoop:
+    """Start a NEW event loop for this world (the previous one stays open until the run ends).  Models a long-lived
+    object that is driven by successive event loops (``asyncio.run`` per request)."""
+    loop = new_loop(world, policy)
+    world._loop = loop  # type: ignore[attr-defined]
+    world.cleanup.append(lambda: close_loop(loop))
+    world.probe('event_loop_replaced')
+    return loop
+
+
 def seed_generators(world: World) -> None:
     """Put the id generators' entropy (random, uuid4) behind the run's choice stream."""
     if getattr(world, '_gen_seeded', False):
